@@ -224,6 +224,9 @@ fn perform(st: &mut State, op: &Json, idx: usize) {
                     if !deps.is_empty() {
                         bump(st, "probe.modules_with_dependencies");
                     }
+                    if op["reexport_only"].as_bool().unwrap_or(false) {
+                        bump(st, "probe.reexport_only_modules");
+                    }
                     st.entities.push(Some(Entity::Frozen { fm, recorded }));
                 }
                 Err(_) => st.entities.push(None),
@@ -342,25 +345,72 @@ fn perform(st: &mut State, op: &Json, idx: usize) {
             }
         }
         "globals" => {
-            // Build Globals from handles, following the documented add_reference protocol.
+            // Build Globals from handles, following the documented add_reference protocol;
+            // optionally through a heap that only groups other heaps (it allocates nothing), with
+            // one-character names (static strings: the globals' own heap allocates nothing either).
             let ts: Vec<usize> = op["targets"].as_array().map(|a| a.iter().filter_map(|x| x.as_u64().map(|x| x as usize)).collect()).unwrap_or_default();
+            let via_group = op["via_group"].as_bool().unwrap_or(false);
+            let short = op["short_names"].as_bool().unwrap_or(false);
             let mut gb = GlobalsBuilder::new();
+            let group = starlark::values::FrozenHeap::new();
             let mut n = 0;
             for t in ts {
                 if let Some(Some(Entity::Handle { h, .. })) = st.entities.get(t) {
-                    gb.frozen_heap().add_reference(h.owner());
+                    if via_group {
+                        group.add_reference(h.owner());
+                    } else {
+                        gb.frozen_heap().add_reference(h.owner());
+                    }
                     let fv = h.as_ref().value().unpack_frozen();
                     if let Some(fv) = fv {
-                        gb.set(&format!("g{n}"), fv);
+                        if short {
+                            gb.set(&((b'a' + (n % 20) as u8) as char).to_string(), fv);
+                        } else {
+                            gb.set(&format!("g{n}"), fv);
+                        }
                         n += 1;
                     }
                 }
             }
-            gb.set("marker", 7);
+            if via_group {
+                let group = match op["group_name"].as_str() {
+                    Some(nm) => group.into_ref_named(starlark::values::FrozenHeapName::user(nm)),
+                    None => group.into_ref(),
+                };
+                gb.frozen_heap().add_reference(&group);
+                drop(group);
+                bump(st, "probe.globals_through_reference_only_heap");
+            }
+            if op["marker"].as_bool().unwrap_or(true) {
+                gb.set(if short { "m" } else { "marker" }, 7);
+            }
             let g = gb.build();
             let recorded = observe_globals(&g);
             bump(st, "probe.globals_built_from_frozen_values");
             st.entities.push(Some(Entity::Globals { g, recorded }));
+        }
+        "regroup" => {
+            // Re-home a handle under a fresh heap which allocates nothing and only references the
+            // handle's owner.
+            let t = op["target"].as_u64().unwrap_or(0) as usize;
+            let h = match st.entities.get(t) {
+                Some(Some(Entity::Handle { h, .. })) => Some(h.clone()),
+                _ => None,
+            };
+            match h.and_then(|h| h.as_ref().value().unpack_frozen().map(|_| h)) {
+                None => st.entities.push(None),
+                Some(h) => {
+                    let name = match op["heap_name"].as_str() {
+                        Some(n) => starlark::values::FrozenHeapName::user(n),
+                        None => starlark::values::FrozenHeapName::user("group"),
+                    };
+                    let h2: OwnedFrozenValue = OwnedFrozen::build(name, |heap| h.as_ref().add_to_frozen_heap(heap).unpack_frozen().unwrap().to_value());
+                    drop(h);
+                    let recorded = observe_handle(&h2);
+                    bump(st, "probe.handle_rehomed_on_reference_only_heap");
+                    st.entities.push(Some(Entity::Handle { h: h2, recorded }));
+                }
+            }
         }
         "module_on_globals" => {
             let t = op["target"].as_u64().unwrap_or(0) as usize;
@@ -541,8 +591,23 @@ impl World for C13 {
                 let mut feat = Features::draw(&mut wl);
                 feat.host = false;
                 feat.emit_rate = 5;
+                // One module in six only re-exports what it loads: its own heap allocates nothing.
+                let reexport_only = !loaded.is_empty() && loaded.iter().any(|(_, p)| !p.is_empty()) && wl.chance(1, 6);
                 let n = 3 + wl.usize(12);
-                let (stmts, exports) = gen_module(&mut wl, feat, &format!("m{idx}_"), n, &loaded, false);
+                let (stmts, exports) = if reexport_only {
+                    let mut stmts = Vec::new();
+                    let mut exports = Vec::new();
+                    for (m, pick) in &loaded {
+                        for (j, (name, kind)) in pick.iter().enumerate() {
+                            stmts.push(format!("load(\"{m}\", rx{idx}_{m}_{j} = \"{name}\")"));
+                            stmts.push(format!("m{idx}_{m}_r{j} = rx{idx}_{m}_{j}"));
+                            exports.push((format!("m{idx}_{m}_r{j}"), *kind));
+                        }
+                    }
+                    (stmts, exports)
+                } else {
+                    gen_module(&mut wl, feat, &format!("m{idx}_"), n, &loaded, false)
+                };
                 // Exporter modules do not need observations.
                 let stmts: Vec<String> = stmts.into_iter().filter(|s| !s.starts_with("emit(")).collect();
                 let heap_name = match wl.below(4) {
@@ -550,7 +615,7 @@ impl World for C13 {
                     1 => json!(format!("pkg{}.star", wl.below(2))),
                     _ => Json::Null,
                 };
-                ops.push(json!({"op": "build", "thread": thread, "deps": deps, "stmts": stmts, "extra": wl.chance(1, 3), "heap_name": heap_name}));
+                ops.push(json!({"op": "build", "thread": thread, "deps": deps, "stmts": stmts, "extra": wl.chance(1, 3), "heap_name": heap_name, "reexport_only": reexport_only}));
                 ents.push(G::Frozen(exports));
             } else if r < 32 {
                 let t = frozen[wl.usize(frozen.len())];
@@ -564,16 +629,22 @@ impl World for C13 {
                 let t = frozen[wl.usize(frozen.len())];
                 ops.push(json!({"op": "handle", "thread": thread, "target": t, "name": wl.below(64), "map": wl.chance(1, 3), "extra": wl.chance(1, 6)}));
                 ents.push(G::Handle);
-            } else if r < 60 && !handles.is_empty() {
+            } else if r < 59 && !handles.is_empty() {
                 let t = handles[wl.usize(handles.len())];
                 ops.push(json!({"op": "add_to_heap", "thread": thread, "target": t}));
                 ents.push(G::Frozen(vec![("moved".to_owned(), Kind::Other), ("wrapped".to_owned(), Kind::List), ("get_moved".to_owned(), Kind::Func1)]));
-            } else if r < 66 && !handles.is_empty() {
+            } else if r < 63 && !handles.is_empty() {
+                let t = handles[wl.usize(handles.len())];
+                let heap_name = if wl.bool() { json!("group") } else { json!(format!("pkg{}.star", wl.below(2))) };
+                ops.push(json!({"op": "regroup", "thread": thread, "target": t, "heap_name": heap_name}));
+                ents.push(G::Handle);
+            } else if r < 68 && !handles.is_empty() {
                 let n = 1 + wl.usize(3);
                 let ts: Vec<usize> = (0..n).map(|_| handles[wl.usize(handles.len())]).collect();
-                ops.push(json!({"op": "globals", "thread": thread, "targets": ts}));
+                let group_name = if wl.bool() { json!("group") } else { Json::Null };
+                ops.push(json!({"op": "globals", "thread": thread, "targets": ts, "via_group": wl.chance(1, 3), "short_names": wl.chance(1, 2), "marker": wl.chance(2, 3), "group_name": group_name}));
                 ents.push(G::Globals);
-            } else if r < 72 && !globals.is_empty() {
+            } else if r < 74 && !globals.is_empty() {
                 let t = globals[wl.usize(globals.len())];
                 if wl.bool() {
                     ops.push(json!({"op": "module_on_globals", "thread": thread, "target": t}));
